@@ -51,6 +51,42 @@ def gen_episode(rng, long=False):
     return g.finish()
 
 
+def swap_episode(rng):
+    """blue/green through the admin API with the circuit breaker on: the pool is empty for a moment, requests
+    arriving then are answered 503, the new backend is added — and must be served at once (nothing has failed)"""
+    g = lbgen.Gen(rng, passive=rng.random() < 0.5, cb=True, nback=0)
+    g.names = []
+    g.add(name="blue", w=1)
+    for _ in range(rng.randint(1, 5)):
+        g.request(outcome="200")
+    g.ops.append("lb remove blue")
+    g.names.remove("blue")
+    for _ in range(rng.randint(4, 9)):
+        g.step_time()
+        g.begin()                       # answered by Helios itself: no backend configured
+        g.infl.pop()
+    g.add(name="green", w=1)
+    g.ops.append("lb list")
+    for _ in range(3):
+        g.request(outcome="200")
+    return g.finish()
+
+
+def churn_episode(rng):
+    """a long-lived balancer whose backends come and go through the admin API (autoscaling): after more than a
+    thousand distinct names adds, removals, listings and traffic still work"""
+    ops = ["lb new %s 0 1 1 0 0 0 0 0 0 0 0 0" % rng.choice(["round_robin", "least_connections"]), "lb add keep 1 good"]
+    t = 0
+    for i in range(1010):
+        ops.append("lb add n%d 1 good" % i)
+        if i % 101 == 0:
+            t += 1
+            ops += ["lb list", "lb begin %d %d - - 10.0.0.1:1" % (t, t), "lb end %d %d 200" % (t, t)]
+        ops.append("lb remove n%d" % i)
+    ops += ["lb list"]
+    return ops
+
+
 def parse_list(o):
     res = []
     for ent in [e for e in o[5:].split(",") if e]:
@@ -107,7 +143,8 @@ def check(ctx):
     binary = c02.build(ctx)
     d = C.Differential(ctx, binary)
     nep = 2000 if ctx.thorough() else 400
-    episodes = C.load_corpus(ID) + [gen_episode(ctx.rng, ctx.thorough()) for _ in range(nep)]
+    episodes = C.load_corpus(ID) + [gen_episode(ctx.rng, ctx.thorough()) for _ in range(nep)] + \
+        [swap_episode(ctx.rng) for _ in range(100 if ctx.thorough() else 20)] + [churn_episode(ctx.rng)]
     bad = d.check(episodes, oracle=oracle, label="admin")
     # concurrent admin actors (each the sole owner of one backend name), strategy switches and
     # traffic through the real admin mux: what an actor was told must be what the listing shows
